@@ -21,6 +21,9 @@ CHECKS['C05'] = dict(cat='other', technique='constant propagation of the dispatc
 CHECKS['C06'] = dict(cat='other', technique='exhaustive constant-propagation grid (51 isotopes x levels -1..17 x modes) of port vs reference accept/reject tables + dominance rules on decay0_generator (throw guards, call-site error discipline)',
    text='The accept/reject frontier is a finite table written twice as source text (reference GENBBsub, port genbbsub): both are folded by constant propagation on every grid point and the tables compared; tabulated levels and energies are compared with the README table; rejected points must reach no call. gA routing, the level-0 requirement, the supported-nuclide set, inverted-window refusal, the window-capable mode list (= modes for which decay0_bb computes the ratio) and the error test after each genbbsub call are dominance / set-equality rules on the AST.',
    note='Known findings: mode 20 with level != 0 (reference coerces, port refuses); a window on a non-capable mode is silently ignored by the library. Not decided: that accepted requests always yield events satisfying C03/C04.', ref='3/C06')
+CHECKS['C03'] = dict(cat='other', technique='all-paths energy summation over the CFG of each de-excitation unit after constant propagation of the entry level; sibling-agreement and dominance rules on decay0_bb / genbbsub',
+   text='Decides the clauses whose truth is in the shape of the code: (1) in each of the 45 *low units, for each of the 173 levels it dispatches on, every CFG path to return emits transitions summing to the level energy within 3 keV (set-valued fixpoint over the residual CFG; rejection loops must emit nothing); (2) every level energy genbbsub tabulates is dispatched by the routine it calls; (3) every isotope with an excited level has a de-excitation arm; (4) the e0 formulas of decay0_bb and of the genbbsub energy check agree case by case; (5) e2 = e0 - e1 exactly for the 0nubb_* modes; (6) the window clamps dominate the spectrum computation. Together with C02 these are the structural reason the 0nu sum equals Q.',
+   note='Not decided: that sampled lepton energies fall inside the window, ratio >= 1 / monotone (numerical integration), alpha-chain energy closure. Known findings: Dy162low 626 keV transition (inherited from the reference), three missing cascades.', ref='3/C03')
 NA = {}
 
 def main():
